@@ -24,13 +24,13 @@ INV_PROP = {"LPMirrors": "C01", "CrossRefOK": "C02", "ExitRestores": "C03", "Exi
 KINDS = {"C01": {"mut"}, "C02": {"mut"}, "C03": {"mut", "enter", "exit"}, "C13": {"stutter"}}
 
 
-def record(prop, wd):
-    out = os.path.join(wd, "repo_trace")
+def record(prop, wd, tests=None):
+    out = os.path.join(wd, "repo_trace" + ("_w" if tests else ""))
     env = dict(os.environ, VERIF_TRACE_OUT=out,
                PYTHONPATH=os.path.join(C.VERIF, "harness") + os.pathsep + os.path.join(C.REPO, "src"))
     env.pop("COBRA_VERIF", None)
     cmd = ["/venv/bin/python", "-m", "pytest", "-q", "-p", "no:cacheprovider", "-p", "repo_trace_plugin", "--timeout=900",
-           "-x" if False else "-q", "--deselect", "tests/test_io/test_web/test_load.py", "--benchmark-disable"] + DIRS[prop]
+           "-x" if False else "-q", "--deselect", "tests/test_io/test_web/test_load.py", "--benchmark-disable"] + (tests or DIRS[prop])
     p = subprocess.run(cmd, cwd=C.REPO, env=env, stdout=subprocess.PIPE, stderr=subprocess.STDOUT, timeout=3000)
     path = os.path.join(out, "events.json")
     if not os.path.exists(path):
@@ -48,8 +48,9 @@ def _validate_file(args):
     return {"printed": res["printed"], "distinct": res["distinct"], "cmd": res["cmd"]}
 
 
-def run_stage(prop, rep, wd):
-    events, summary = record(prop, wd)
+def run_stage(prop, rep, wd, tests=None):
+    """tests: only these test ids (the pinned witnesses of open findings, run by the quick tier as well)"""
+    events, summary = record(prop, wd, tests)
     errs = [e for e in events if e["k"] == "recorder-error"]
     if len(errs) > len(events) // 20:
         raise C.Machinery("the test-suite recorder failed on %d of %d events: %s" % (len(errs), len(events), errs[0]))
@@ -76,7 +77,7 @@ def run_stage(prop, rep, wd):
         files.append(cur)
     jobs = []
     for i, batch in enumerate(files):
-        path = os.path.join(wd, "repo_batch_%d.json" % i)
+        path = os.path.join(wd, "repo_batch%s_%d.json" % ("_w" if tests else "", i))
         with open(path, "w") as fh:
             json.dump(batch, fh)
         jobs.append((path, wd))
@@ -108,7 +109,7 @@ def run_stage(prop, rep, wd):
         rep.verdict(v2, {"engine": "repo", "test": v["test"], "event": ev,
                          "how": "cd /repo && VERIF_TRACE_OUT=<dir> PYTHONPATH=/verif/harness:/repo/src /venv/bin/python -m pytest "
                                 "-p repo_trace_plugin '%s'" % v["test"].split("::teardown")[0]})
-    rep.coverage["repo_tests"] = {"tests_with_events": len(traces), "events_validated": n_events, "per_action_counts": per_action,
+    rep.coverage["repo_tests_witness" if tests else "repo_tests"] = {"tests_with_events": len(traces), "events_validated": n_events, "per_action_counts": per_action,
                                   "pytest_summary": summary, "recorder_errors": len(errs), "trace_checker_cmd": cmd,
-                                  "dirs": DIRS[prop]}
+                                  "dirs": tests or DIRS[prop]}
     return n_events
